@@ -36,7 +36,7 @@ def load_findings():
     return out
 
 
-def run_impl(stage, modname, cases, ext, workers=1):
+def run_impl(stage, modname, cases, ext, workers=1, ambient=None):
     """Run mod.impl_run over cases inside the staged interpreter (one backend)."""
     if not cases:
         return []
@@ -47,7 +47,11 @@ def run_impl(stage, modname, cases, ext, workers=1):
         with tempfile.TemporaryDirectory(dir="/var/tmp") as td:
             ci, co = os.path.join(td, "c.json"), os.path.join(td, "o.json")
             json.dump(chunks[i], open(ci, "w"))
-            p = subprocess.run([PY, "-m", "vlib.impl_main", modname, ci, co], env=stage.env(ext), capture_output=True, text=True,
+            env = stage.env(ext)
+            env.pop("VERIF_AMBIENT", None)
+            if ambient:
+                env["VERIF_AMBIENT"] = ambient
+            p = subprocess.run([PY, "-m", "vlib.impl_main", modname, ci, co], env=env, capture_output=True, text=True,
                                cwd=os.path.join(VERIF, "tools"))
             if p.returncode != 0:
                 raise RuntimeError(f"implementation runner failed ({'rs' if ext else 'py'}): " + p.stderr[-3000:])
@@ -219,49 +223,64 @@ def evaluate(mod, stage, cases, driver_ok, want_model=True, impl_workers=4):
 
 
 def history_check(mod, stage, res):
-    """The properties quantify over every history of the process, the streams run each case once, in one order.  A second pass runs a
-    deterministic sample of the same cases in REVERSED order, in one fresh process per backend: a case whose canonical result differs
-    between the two passes depends on what ran before it (a cache keyed too coarsely, configuration left behind by an earlier call, ...).
-    The offending predecessor is located by bisection so that the replay is the shortest history [.., victim] found."""
+    """The properties quantify over every history of the process; the streams run each case once, in one order, in a fresh process.
+    Extra passes re-run a deterministic sample of the same cases under a DIFFERENT history, one fresh process per backend and pass:
+      reverse : the sample in reversed order (a cache keyed too coarsely, state left behind by an earlier call);
+      failed  : after configuration calls that are rejected (set_locale of an unknown locale, week_starts_at(9)): they must change nothing;
+      ambient : under a non-default, documented process-wide configuration (week_starts_at/week_ends_at, set_locale, set_local_timezone),
+                minus the settings the module's cases legitimately depend on (mod.AMBIENT_DEPENDS).
+    A case whose canonical result differs from the first pass depends on the history.  For `reverse` the offending predecessor is located
+    by bisection so that the replay is the shortest history [.., victim] found; for the other passes the replay names the pass."""
     out = []
+    depends = set(getattr(mod, "AMBIENT_DEPENDS", ()))
+    amb = ",".join(w for w in ("week", "locale", "localtz") if w not in depends)
+    passes = [("reverse", None), ("failed", "failed")] + ([("ambient", amb)] if amb else [])
     for bname, ext in BACKENDS:
         if bname not in res["impl"]:
             continue
         sel, ires = res["impl"][bname]
         want = getattr(mod, "HISTORY_SAMPLE", None) or min(3000, max(50, len(sel) // 8))
         step = max(1, len(sel) // want)
-        idx = list(range(0, len(sel), step))[::-1]
-        sample = [sel[i] for i in idx]
-        try:
-            r2 = run_impl(stage, mod.ID, sample, ext, 1)
-        except Exception as e:  # noqa
-            res["errors"].append("history pass: " + str(e)[-400:])
-            continue
-        res.setdefault("history_checked", {})[bname] = len(sample)
-        bad = [k for k, i in enumerate(idx) if r2[k] != ires[i]]
-        if not bad:
-            continue
-        k = bad[0]
-        victim, first, second = sample[k], ires[idx[k]], r2[k]
-        alone = run_impl(stage, mod.ID, [victim], ext, 1)[0]
-        prefix = sample[:k]
-        # bisect for a short history that still changes the victim's result w.r.t. running it alone in a fresh process
-        hist = prefix
-        if run_impl(stage, mod.ID, hist + [victim], ext, 1)[-1] != alone:
-            while len(hist) > 1:
-                h1, h2 = hist[:len(hist) // 2], hist[len(hist) // 2:]
-                if run_impl(stage, mod.ID, h1 + [victim], ext, 1)[-1] != alone:
-                    hist = h1
-                elif run_impl(stage, mod.ID, h2 + [victim], ext, 1)[-1] != alone:
-                    hist = h2
+        for pname, ambient in passes:
+            idx = list(range(0, len(sel), step))
+            if pname == "reverse":
+                idx = idx[::-1]
+            sample = [sel[i] for i in idx]
+            try:
+                r2 = run_impl(stage, mod.ID, sample, ext, 1, ambient)
+            except Exception as e:  # noqa
+                res["errors"].append(f"history pass {pname}: " + str(e)[-400:])
+                continue
+            res.setdefault("history_checked", {}).setdefault(pname, {})[bname] = len(sample)
+            bad = [k for k, i in enumerate(idx) if r2[k] != ires[i]]
+            if not bad:
+                continue
+            k = bad[0]
+            victim, first, second = sample[k], ires[idx[k]], r2[k]
+            alone = run_impl(stage, mod.ID, [victim], ext, 1)[0]
+            hist = None
+            if pname == "reverse":
+                hist = sample[:k]
+                # bisect for a short history that still changes the victim's result w.r.t. running it alone in a fresh process
+                if run_impl(stage, mod.ID, hist + [victim], ext, 1)[-1] != alone:
+                    while len(hist) > 1:
+                        h1, h2 = hist[:len(hist) // 2], hist[len(hist) // 2:]
+                        if run_impl(stage, mod.ID, h1 + [victim], ext, 1)[-1] != alone:
+                            hist = h1
+                        elif run_impl(stage, mod.ID, h2 + [victim], ext, 1)[-1] != alone:
+                            hist = h2
+                        else:
+                            break
                 else:
-                    break
-        else:
-            hist = None     # the forward pass was the history-dependent one
-        out.append({"backend": bname, "case": victim, "impl": second, "history": hist,
-                    "why": f"the result depends on what ran earlier in the process: {json.dumps(first)[:300]} in the forward pass, "
-                           f"{json.dumps(second)[:300]} after a different history, {json.dumps(alone)[:300]} alone in a fresh process "
-                           f"({len(bad)} of {len(sample)} re-run cases differ)"})
+                    hist = None     # the forward pass was the history-dependent one
+            label = {"reverse": "a different order of the same calls",
+                     "failed": "configuration calls that were REJECTED (set_locale('tlh'), week_starts_at(9), ...)",
+                     "ambient": f"the documented process-wide configuration [{ambient}] set before the calls"}[pname]
+            out.append({"backend": bname, "case": victim, "impl": second, "history": hist, "ambient": ambient,
+                        "why": f"the result depends on what happened earlier in the process ({label}): {json.dumps(first)[:300]} in a fresh process, "
+                               f"{json.dumps(second)[:300]} after that history, {json.dumps(alone)[:300]} alone "
+                               f"({len(bad)} of {len(sample)} re-run cases differ)"})
+            break
     return out
 
 
@@ -409,7 +428,7 @@ def main(argv=None):
                 "translated_files_changed_this_run": changed,
                 "evaluations": n_eval, "distinct_nontrivial": distinct,
                 "rule": mod.RULE, "streams": streams, "samples": samples[:12],
-                "history_independence": {"cases_rerun_in_reverse_order_per_backend": res.get("history_checked", {}),
+                "history_independence": {"cases_rerun_per_pass_and_backend": res.get("history_checked", {}),
                                          "results_that_changed": len(history_violations)},
                 "correspondence": {"cases": len(cases), "model_impl_differences": len(res["corr_diffs"]),
                                    "vm_compute_cross_checked": vm_checked, "backends": list(res["impl"].keys())},
@@ -433,10 +452,10 @@ def do_replay(mod, stage, path):
         print("replay names what no longer checks:", json.dumps(rp.get("no_longer_checks"), indent=1))
         return 1
     c = rp["case"]
-    if rp.get("history") is not None:
+    if rp.get("history") is not None or rp.get("ambient"):
         ext = dict(BACKENDS)[rp["backend"]]
         alone = run_impl(stage, mod.ID, [c], ext, 1)[0]
-        after = run_impl(stage, mod.ID, rp["history"] + [c], ext, 1)[-1]
+        after = run_impl(stage, mod.ID, (rp.get("history") or []) + [c], ext, 1, rp.get("ambient"))[-1]
         print(json.dumps({"alone": alone, "after_history": after}, default=str))
         if alone != after:
             print(f"VIOLATION property={mod.ID} replay={path}")
